@@ -286,28 +286,106 @@ Section SP.
       = render 0 (sr c i) e ++ tComma :: sep_by [tComma] (exprs_toks sr c (S i) (e2 :: tl)).
   Proof. reflexivity. Qed.
 
-  Lemma group_list_ok : forall l, forallb ref_expr l = true -> l <> [] ->
-      forall (sr : srho) c i d acc R n L,
-        hd_in L R -> notin TyComma L = true ->
-        S d + exprs_depth sr c i l <= md ->
-        length (sep_by [tComma] (exprs_toks sr c i l) ++ R) < fuel ->
-        length (sep_by [tComma] (exprs_toks sr c i l) ++ R) < n ->
-        group_list pe n d acc (sep_by [tComma] (exprs_toks sr c i l) ++ R) = Val (acc ++ map ast_of l, R).
+  Lemma exprs_head_not : forall (sr : srho) c i e tl X k, notin k starts_list = true ->
+      isT (cur (sep_by [tComma] (exprs_toks sr c i (e :: tl)) ++ X)) k = false.
   Proof.
-    induction l as [|e tl IH]; intros Href Hne sr c i d acc R n L HR HL Hdep Hlen Hn; [contradiction|].
+    intros sr c i e tl X k Hk. destruct tl as [|e2 tl2].
+    - cbn [exprs_toks sep_by]. apply head_isT_not. exact Hk.
+    - rewrite exprs_sep_cons2. rewrite <- app_assoc. apply head_isT_not. exact Hk.
+  Qed.
+
+  (* ROLLUP ( ... ) / CUBE ( ... ) *)
+  Lemma grouping_exprs_ok : forall l, forallb ref_expr l = true -> l <> [] ->
+      forall (sr : srho) c i d acc X n,
+        S d + exprs_depth sr c i l <= md ->
+        length (sep_by [tComma] (exprs_toks sr c i l) ++ tRP :: X) < fuel ->
+        length (sep_by [tComma] (exprs_toks sr c i l) ++ tRP :: X) < n ->
+        grouping_exprs pe n d acc (sep_by [tComma] (exprs_toks sr c i l) ++ tRP :: X) = Val (acc ++ map ast_of l, tRP :: X).
+  Proof.
+    induction l as [|e tl IH]; intros Href Hne sr c i d acc X n Hdep Hlen Hn; [contradiction|].
     cbn [forallb] in Href. apply andb_prop in Href. destruct Href as [Hre Hrtl].
     cbn [exprs_depth] in Hdep.
     destruct n as [|n]; [lia|].
     destruct tl as [|e2 tl'].
-    - cbn [exprs_toks sep_by] in *. cbn [group_list]. rhd. cbn [orb andb].
-      rewrite pe_item; [|assumption|apply HR|lia|assumption].
-      cbn [bind]. rewrite (hd_isT L R TyComma HR HL). reflexivity.
+    - cbn [exprs_toks sep_by] in *. cbn [grouping_exprs].
+      rewrite pe_item; [|assumption|reflexivity|lia|assumption].
+      cbn [bind cur]. isT_conc. cbn iota. reflexivity.
     - rewrite exprs_sep_cons2 in *. rewrite <- app_assoc in *. cbn [app] in *.
       rewrite app_length in Hlen, Hn. cbn [length] in Hlen, Hn.
-      cbn [group_list]. rhd. cbn [orb andb].
+      cbn [grouping_exprs].
       rewrite pe_item; [|assumption|reflexivity|lia|rewrite app_length; cbn [length]; lia].
-      cbn [bind cur advance]. isT_conc. cbn iota.
-      rewrite (IH Hrtl ltac:(discriminate) sr c (S i) d (acc ++ [ast_of e]) R n L HR HL); [|lia|lia|lia].
+      cbn [bind cur advance]. isT_conc. cbn iota. cbn [negb].
+      rewrite (IH Hrtl ltac:(discriminate) sr c (S i) d (acc ++ [ast_of e]) X n); [|lia|lia|lia].
+      rewrite <- app_assoc. reflexivity.
+  Qed.
+
+  Lemma grouping_list_ok : forall l (sr : srho) c i d X,
+      forallb ref_expr l = true -> l <> [] ->
+      S d + exprs_depth sr c i l <= md ->
+      length (tLP :: sep_by [tComma] (exprs_toks sr c i l) ++ tRP :: X) < fuel ->
+      parse_grouping_list pe d (tLP :: sep_by [tComma] (exprs_toks sr c i l) ++ tRP :: X) = Val (map ast_of l, X).
+  Proof.
+    intros l sr c i d X Href Hne Hdep Hlen. destruct l as [|e tl]; [contradiction|].
+    unfold parse_grouping_list. cbn [cur advance]. isT_conc. cbn iota. cbn [negb].
+    rewrite (exprs_head_not sr c i e tl (tRP :: X) TyRParen eq_refl).
+    cbn [length] in Hlen.
+    rewrite (grouping_exprs_ok (e :: tl) Href Hne sr c i d [] X); [|exact Hdep|lia|lia].
+    cbn [bind advance app]. reflexivity.
+  Qed.
+
+  Definition group_item_depth (sr : srho) (i : nat) (g : mgroup) : nat :=
+    match g with GrExpr e => pdepth 0 (sr cl_group i) e | GrRollup es | GrCube es => exprs_depth sr cl_group i es end.
+
+  (* one round of the GROUP BY loop *)
+  Lemma group_step : forall g (sr : srho) i X d n acc,
+      group_ok g = true -> stops 0 (cur X) = true ->
+      S d + group_item_depth sr i g <= md -> length (group_item_toks sr i g ++ X) < fuel ->
+      group_list pe (S n) d acc (group_item_toks sr i g ++ X)
+      = if isT (cur X) TyComma then group_list pe n d (acc ++ [ast_of_group g]) (advance X)
+        else Val (acc ++ [ast_of_group g], X).
+  Proof.
+    intros g sr i X d n acc Hok HX Hdep Hlen. cbn [group_list].
+    destruct g as [e|es|es]; cbn [group_item_toks group_ok group_item_depth ast_of_group] in *.
+    - rhd. cbn [orb andb]. rewrite pe_item; [|assumption|assumption|assumption|assumption]. cbn [bind]. reflexivity.
+    - apply andb_prop in Hok. destruct Hok as [Hne Href].
+      cbn [app cur advance] in *. isT_conc. cbn iota. rewrite <- app_assoc in *. cbn [app] in *.
+      rewrite grouping_list_ok; [|exact Href|destruct es; [discriminate|discriminate]|exact Hdep|cbn [length] in *; lia].
+      cbn [bind]. reflexivity.
+    - apply andb_prop in Hok. destruct Hok as [Hne Href].
+      cbn [app cur advance] in *. isT_conc. cbn iota. rewrite <- app_assoc in *. cbn [app] in *.
+      rewrite grouping_list_ok; [|exact Href|destruct es; [discriminate|discriminate]|exact Hdep|cbn [length] in *; lia].
+      cbn [bind]. reflexivity.
+  Qed.
+
+  Lemma groups_sep_cons2 : forall (sr : srho) i g g2 tl,
+      sep_by [tComma] (groups_toks sr i (g :: g2 :: tl))
+      = group_item_toks sr i g ++ tComma :: sep_by [tComma] (groups_toks sr (i + group_size g) (g2 :: tl)).
+  Proof. reflexivity. Qed.
+
+  Lemma group_list_ok : forall l, forallb group_ok l = true -> l <> [] ->
+      forall (sr : srho) i d acc R n,
+        hd_in T2 R ->
+        S d + groups_depth sr i l <= md ->
+        length (sep_by [tComma] (groups_toks sr i l) ++ R) < fuel ->
+        length (sep_by [tComma] (groups_toks sr i l) ++ R) < n ->
+        group_list pe n d acc (sep_by [tComma] (groups_toks sr i l) ++ R) = Val (acc ++ map ast_of_group l, R).
+  Proof.
+    induction l as [|g tl IH]; intros Href Hne sr i d acc R n HR Hdep Hlen Hn; [contradiction|].
+    cbn [forallb] in Href. apply andb_prop in Href. destruct Href as [Hg Hrtl].
+    cbn [groups_depth] in Hdep. fold (group_item_depth sr i g) in Hdep.
+    destruct n as [|n]; [lia|].
+    destruct tl as [|g2 tl'].
+    - cbn [groups_toks sep_by] in *.
+      rewrite group_step; [|assumption|apply HR|lia|assumption].
+      rewrite (hd_isT T2 R TyComma HR eq_refl). reflexivity.
+    - rewrite groups_sep_cons2 in *. rewrite <- app_assoc in *. cbn [app] in *.
+      rewrite app_length in Hlen, Hn. cbn [length] in Hlen, Hn.
+      rewrite group_step; [|assumption|reflexivity|lia|rewrite app_length; cbn [length]; lia].
+      cbn [cur advance]. change (isT tComma TyComma) with true. cbn iota.
+      assert (Hgl : 1 <= length (group_item_toks sr i g)).
+      { destruct g as [e|es|es]; cbn [group_item_toks length]; try lia.
+        destruct (render_head e 0 (sr cl_group i)) as (tk & tl0 & E & _). rewrite E. cbn [length]. lia. }
+      rewrite (IH Hrtl ltac:(discriminate) sr (i + group_size g) d (acc ++ [ast_of_group g]) R n HR); [|lia|lia|lia].
       rewrite <- app_assoc. reflexivity.
   Qed.
 
@@ -361,19 +439,19 @@ Section SP.
       rewrite <- app_assoc. reflexivity.
   Qed.
 
-  Lemma ps_group_ok : forall (sr : srho) l R d, forallb ref_expr l = true -> hd_in T2 R ->
-      S d + exprs_depth sr cl_group 0 l <= md -> length (group_toks sr l ++ R) < fuel ->
-      ps_group pe d (group_toks sr l ++ R) = Val (map ast_of l, R).
+  Lemma ps_group_ok : forall (sr : srho) l R d, forallb group_ok l = true -> hd_in T2 R ->
+      S d + groups_depth sr 0 l <= md -> length (group_toks sr l ++ R) < fuel ->
+      ps_group pe d (group_toks sr l ++ R) = Val (map ast_of_group l, R).
   Proof.
     intros sr l R d Href HR Hdep Hlen. unfold group_toks, list_clause in *.
-    destruct l as [|e tl].
-    - cbn [exprs_toks app map]. unfold ps_group. hd_rw HR. reflexivity.
-    - remember (e :: tl) as l0 eqn:El.
-      assert (Hex : exprs_toks sr cl_group 0 l0 <> []) by (subst l0; discriminate).
-      destruct (exprs_toks sr cl_group 0 l0) as [|x xs] eqn:Ex; [contradiction|]. rewrite <- Ex in *. clear Hex Ex x xs.
+    destruct l as [|g tl].
+    - cbn [groups_toks app map]. unfold ps_group. hd_rw HR. reflexivity.
+    - remember (g :: tl) as l0 eqn:El.
+      assert (Hex : groups_toks sr 0 l0 <> []) by (subst l0; discriminate).
+      destruct (groups_toks sr 0 l0) as [|x xs] eqn:Ex; [contradiction|]. rewrite <- Ex in *. clear Hex Ex x xs.
       cbn [app] in *. cbn [length] in Hlen.
       unfold ps_group. cbn [cur advance]. isT_conc. cbn iota. cbn [negb].
-      rewrite (group_list_ok l0 Href ltac:(subst l0; discriminate) sr cl_group 0 d [] R _ T2 HR eq_refl); [|lia|lia|lia].
+      rewrite (group_list_ok l0 Href ltac:(subst l0; discriminate) sr 0 d [] R _ HR); [|lia|lia|lia].
       cbn [bind app]. hd_rw HR. reflexivity.
   Qed.
 
@@ -822,14 +900,14 @@ Section SP.
       length (select_tail_toks sr s ++ stop) < fuel ->
       parse_select md sf pe d (select_tail_toks sr s ++ stop) = Val (ast_of_select s, stop).
   Proof.
-    intros sr [dist items from joins wh gb hv ob lim off] stop d Hok Hflag Hstop Hdep Hlen.
-    unfold select_ok in Hok. cbn [s_distinct s_items s_from s_joins s_where s_group s_having s_order s_limit s_offset] in Hok.
+    intros sr [dist don items from joins wh gb hv ob lim off] stop d Hok Hflag Hstop Hdep Hlen.
+    unfold select_ok in Hok. cbn [s_distinct s_distinct_on s_items s_from s_joins s_where s_group s_having s_order s_limit s_offset] in Hok.
     repeat (let H := fresh "Hk" in apply andb_prop in Hok; destruct Hok as [Hok H]).
-    rename Hok into Hne. rename Hk8 into Hitems. rename Hk7 into Hfrom. rename Hk6 into Hnojoin. rename Hk5 into Hjoins.
+    rename Hok into Hdon1. rename Hk10 into Hdon. rename Hk9 into Hne. rename Hk8 into Hitems. rename Hk7 into Hfrom. rename Hk6 into Hnojoin. rename Hk5 into Hjoins.
     rename Hk4 into Hwh. rename Hk3 into Hgb. rename Hk2 into Hhv. rename Hk1 into Hob. rename Hk0 into Hlim. rename Hk into Hoff.
     unfold select_bare_alias_free in Hflag. cbn [s_items] in Hflag.
-    unfold select_depth in Hdep. cbn [s_items s_joins s_where s_group s_having s_order] in Hdep.
-    unfold select_tail_toks in *. cbn [s_distinct s_items s_from s_joins s_where s_group s_having s_order s_limit s_offset] in *.
+    unfold select_depth in Hdep. cbn [s_distinct_on s_items s_joins s_where s_group s_having s_order] in Hdep.
+    unfold select_tail_toks in *. cbn [s_distinct s_distinct_on s_items s_from s_joins s_where s_group s_having s_order s_limit s_offset] in *.
     pose proof (sel_follow_hd stop Hstop) as H6.
     assert (H5 : hd_in T5 (offset_toks off ++ stop)) by (apply hd_opt; [exact H6|reflexivity]).
     assert (H4 : hd_in T4 (limit_toks lim ++ offset_toks off ++ stop)) by (apply hd_opt; [exact H5|reflexivity]).
@@ -853,14 +931,23 @@ Section SP.
       - unfold from_toks, list_clause. cbn [map app]. split; reflexivity. }
     destruct items as [|it itl]; [discriminate|].
     assert (Hlen_items : length (sep_by [tComma] (items_toks sr 0 (it :: itl)) ++ Rf) < fuel).
-    { destruct dist; cbn [app length] in Hlen; lia. }
+    { rewrite app_length in Hlen. lia. }
     unfold parse_select. destruct (Nat.ltb_spec md (S d)); [lia|].
-    (* DISTINCT *)
-    assert (Hd : ps_distinct pe (S d) ((if dist then [Tk TyDistinct "DISTINCT"] else []) ++ sep_by [tComma] (items_toks sr 0 (it :: itl)) ++ Rf)
-                 = Val ((dist, []), sep_by [tComma] (items_toks sr 0 (it :: itl)) ++ Rf)).
-    { unfold ps_distinct. destruct dist; cbn [app cur advance].
-      - isT_conc. cbn iota. rewrite (items_head_not sr 0 it itl Rf TyOn eq_refl). reflexivity.
-      - rewrite (items_head_not sr 0 it itl Rf TyDistinct eq_refl), (items_head_not sr 0 it itl Rf TyAll eq_refl). reflexivity. }
+    (* DISTINCT [ON ( ... )] *)
+    assert (Hd : ps_distinct pe (S d) (distinct_toks sr dist don ++ sep_by [tComma] (items_toks sr 0 (it :: itl)) ++ Rf)
+                 = Val ((dist, map ast_of don), sep_by [tComma] (items_toks sr 0 (it :: itl)) ++ Rf)).
+    { unfold ps_distinct, distinct_toks. destruct dist; cbn [app cur advance].
+      - isT_conc. cbn iota. destruct don as [|e0 dtl].
+        + cbn [app map]. rewrite (items_head_not sr 0 it itl Rf TyOn eq_refl). reflexivity.
+        + cbn [app cur advance]. isT_conc. cbn iota. cbn [negb]. rewrite <- app_assoc. cbn [app].
+          assert (HRP : hd_in [TyRParen] (tRP :: sep_by [tComma] (items_toks sr 0 (it :: itl)) ++ Rf)) by (split; reflexivity).
+          unfold distinct_toks in Hlen. cbn [app length] in Hlen. rewrite <- app_assoc in Hlen. cbn [app] in Hlen. rewrite !app_length in Hlen. cbn [length] in Hlen.
+          rewrite (expr_list_ok (e0 :: dtl) Hdon ltac:(discriminate) sr cl_don 0 (S d) [] _ _ [TyRParen] HRP eq_refl);
+            [| | | ].
+          2:{ lia. } 2:{ rewrite app_length; cbn [length]; lia. } 2:{ lia. }
+          cbn [bind cur advance app]. isT_conc. cbn iota. reflexivity.
+      - destruct don; [|discriminate Hdon1]. cbn [map].
+        rewrite (items_head_not sr 0 it itl Rf TyDistinct eq_refl), (items_head_not sr 0 it itl Rf TyAll eq_refl). reflexivity. }
     rewrite Hd. cbn [bind fst snd]. rewrite (items_head_not sr 0 it itl Rf TyFrom eq_refl).
     rewrite (select_items_ok (it :: itl) Hitems ltac:(discriminate) Hflag sr 0 (S d) [] Rf _ Hf); [|lia|exact Hlen_items|lia].
     cbn [bind app]. rewrite (titems_check (cur Rf) (proj1 Hf)).
@@ -924,7 +1011,7 @@ Qed.
 
 (* the defect switch of the tree: an alias without AS after a bare column reference is not read *)
 Definition w_bare_alias : mselect :=
-  MkSelect false [IExpr (MIdent false "a") (Some (false, "b"))] [MkTable ["t"] None] [] None [] None [] None None.
+  MkSelect false [] [IExpr (MIdent false "a") (Some (false, "b"))] [MkTable ["t"] None] [] None [] None [] None None.
 
 Theorem parse_render_select_refuted_bare_alias :
   exists s stop, select_ok s = true /\ query_follow stop /\
